@@ -7,7 +7,7 @@ CONSTANTS
     Alphabet <- AlphabetDef
     MaxChars = 3
     MaxOps = 3
-    Texts <- TextsDef
+    Texts <- TextsSmall
     Lits <- LitsDef
     Kinds <- AllKinds
     FixedCaps <- CapsDef
@@ -20,6 +20,8 @@ CONSTANTS
     Apis <- BothApis
     DrainF = 2
     DrainB = 1
+    CheckProps = TRUE
+    SampleK = 0
 INVARIANTS
     TypeOK
     WholeChars
